@@ -167,11 +167,19 @@ func CheckKeyValue(path string, rwPath *admin.ReadWritePath, val *configapi.Type
 	if len(indexNames) == 0 {
 		return nil
 	}
+	// the key a key leaf stands for is that of its own list entry: the last index carrying its
+	// name (an enclosing list may have a key of the same name)
+	own := -1
 	for i, idxName := range indexNames {
+		if rwPath.AttrName == idxName {
+			own = i
+		}
+	}
+	for i := range indexNames {
 		if err := CheckPathIndexIsValid(indexValues[i]); err != nil {
 			return err
 		}
-		if !rwPath.IsAKey || rwPath.AttrName == idxName && indexValues[i] == val.ValueToString() {
+		if !rwPath.IsAKey || i == own && indexValues[i] == val.ValueToString() {
 			return nil
 		}
 	}
